@@ -5,7 +5,12 @@ set -u
 ID="$1"; SEED="$2"; shift 2
 HERE="$(cd "$(dirname "$0")/.." && pwd)"
 W="$(mktemp -d /tmp/seeded-XXXXXX)"
-cp -r /repo/src /repo/include "$W/"
+if [ -f "$HERE/seeded/$ID/base" ]; then
+  # a change written against an earlier /repo commit (the lines it touches were rewritten by a later fix: commit): use that tree
+  git -C /repo archive "$(cat "$HERE/seeded/$ID/base")" src include | tar -x -C "$W"
+else
+  cp -r /repo/src /repo/include "$W/"
+fi
 ( cd "$W" && patch -p1 -s < "$HERE/seeded/$ID/patch.diff" ) || { echo "SEEDED $ID patch-failed"; rm -rf "$W"; exit 3; }
 cd "$HERE"
 for P in "$@"; do
